@@ -862,8 +862,8 @@ impl img::DiskImage for Td0 {
         ans.kind = match (ans.byte_capacity(),ans.tracks[0].header.sectors) {
             (l,8) if l==DSDD_77.byte_capacity() => img::DiskKind::D8(DSDD_77),
             (l,8) if l==IBM_SSDD_8.byte_capacity() => img::DiskKind::D525(IBM_SSDD_8),
-            (l,9) if l==IBM_SSDD_9.byte_capacity() => img::DiskKind::D525(IBM_SSDD_9),
-            (l,8) if l==IBM_DSDD_8.byte_capacity() => img::DiskKind::D525(IBM_DSDD_8),
+            (l,9) if l==IBM_SSDD_9.byte_capacity() && ans.header.drive_type!=3 => img::DiskKind::D525(IBM_SSDD_9),
+            (l,8) if l==IBM_DSDD_8.byte_capacity() && ans.heads==2 => img::DiskKind::D525(IBM_DSDD_8),
             (l,9) if l==IBM_DSDD_9.byte_capacity() => img::DiskKind::D525(IBM_DSDD_9),
             (l,8) if l==IBM_SSQD.byte_capacity() => img::DiskKind::D525(IBM_SSQD),
             (l,8) if l==IBM_DSQD.byte_capacity() => img::DiskKind::D525(IBM_DSQD),
